@@ -37,6 +37,36 @@ before step `i`; it is the square of the diagonal entry `R(i,i)` that the step p
 def ExactRoots (sqrt : K → K) (m n rs cs : Nat) (A tau0 : Array K) : Prop :=
   ∀ i, i < min m n → SqrtExactStep sqrt m rs cs (stateAt sqrt m n rs cs A tau0 i).1 i
 
+instance (sqrt : K → K) (m rs cs : Nat) (B : Array K) (i : Nat) : Decidable (SqrtExactStep sqrt m rs cs B i) := by
+  unfold SqrtExactStep; infer_instance
+
+instance (sqrt : K → K) (m n rs cs : Nat) (A tau0 : Array K) : Decidable (ExactRoots sqrt m n rs cs A tau0) := by
+  unfold ExactRoots; infer_instance
+
+/-- the buffer part of the state does not depend on what the member `tau` held before the call -/
+theorem stateAt_buf_indep (sqrt : K → K) (m n rs cs : Nat) (A tau0 tau1 : Array K) : ∀ i, i ≤ min m n →
+    (stateAt sqrt m n rs cs A tau0 i).1 = (stateAt sqrt m n rs cs A tau1 i).1 ∧
+    (stateAt sqrt m n rs cs A tau0 i).2.size = min m n ∧ (stateAt sqrt m n rs cs A tau1 i).2.size = min m n := by
+  intro i
+  induction i with
+  | zero =>
+    intro _
+    refine ⟨rfl, ?_, ?_⟩ <;> (show (resizeZ _ (min m n)).size = _; unfold resizeZ; rw [Array.size_ofFn])
+  | succ i ih =>
+    intro hi
+    obtain ⟨h1, h2, h3⟩ := ih (by omega)
+    rw [stateAt_succ, stateAt_succ]
+    unfold computeStep
+    simp only []
+    rw [Arr2.getD_setIfInBounds_self _ _ _ (by rw [h2]; omega), Arr2.getD_setIfInBounds_self _ _ _ (by rw [h3]; omega), h1]
+    exact ⟨rfl, by rw [Array.size_setIfInBounds, h2], by rw [Array.size_setIfInBounds, h3]⟩
+
+theorem ExactRoots_indep (sqrt : K → K) (m n rs cs : Nat) (A tau0 tau1 : Array K)
+    (h : ExactRoots sqrt m n rs cs A tau0) : ExactRoots sqrt m n rs cs A tau1 := by
+  intro i hi
+  rw [← (stateAt_buf_indep sqrt m n rs cs A tau0 tau1 i (by omega)).1]
+  exact h i hi
+
 theorem Hmat_transpose (F T : Array K) (rs cs m i : Nat) : (Hmat F T rs cs m i)ᵀ = Hmat F T rs cs m i :=
   house_transpose _ _
 
